@@ -133,15 +133,25 @@ func (g *Gen) WrapOp(op string, kid *R, depth int) *R {
 	case "withstack", "assertion", "pkgwithstack":
 		return g.node(op, nil, nil, kid)
 	case "issuelink":
+		if g.hostile && g.rng.Bool() {
+			return g.node(op, []string{g.word(), g.word()}, nil, kid)
+		}
 		return g.node(op, []string{g.rng.Pick(urlsPool), g.word()}, nil, kid)
 	case "telemetry":
 		n := g.rng.Intn(3)
 		var ks []string
 		for i := 0; i < n; i++ {
-			ks = append(ks, g.rng.Pick(keysPool))
+			if g.hostile && g.rng.Bool() {
+				ks = append(ks, g.word())
+			} else {
+				ks = append(ks, g.rng.Pick(keysPool))
+			}
 		}
 		return g.node(op, ks, nil, kid)
 	case "domain":
+		if g.hostile && g.rng.Bool() {
+			return g.node(op, []string{g.word()}, nil, kid)
+		}
 		return g.node(op, []string{g.rng.Pick(domainsPool)}, nil, kid)
 	case "tags":
 		n := g.rng.Intn(3)
@@ -150,7 +160,12 @@ func (g *Gen) WrapOp(op string, kid *R, depth int) *R {
 		off := g.rng.Intn(4)
 		var kinds []int
 		for i := 0; i < n; i++ { // distinct keys: logtags overwrites an earlier tag with the same key
-			kv = append(kv, keys[(off+i)%4], g.word())
+			key := keys[(off+i)%4]
+			if g.hostile && g.rng.Bool() {
+				// a hostile key (markers, newlines, invalid UTF-8), kept distinct by its position
+				key = g.rng.Pick(hostileWords) + []string{"", "1", "22"}[i]
+			}
+			kv = append(kv, key, g.word())
 			kinds = append(kinds, []int{0, 0, 1, 2}[g.rng.Intn(4)])
 		}
 		return g.node(op, kv, kinds, kid)
